@@ -534,6 +534,18 @@ __wrap_arc4random_buf (void *buf, size_t n)
     ((volatile unsigned char *) buf)[i] = ((unsigned char *) buf)[i];
 }
 
+/* The C library's explicit_bzero is not instrumented: an erase that runs past the end of an object (or races
+   with another thread) would escape the sanitizers.  Do the store from instrumented code first.  */
+void __real_explicit_bzero (void *, size_t);
+void
+__wrap_explicit_bzero (void *p, size_t n)
+{
+  volatile unsigned char *q = p;
+  for (size_t i = 0; i < n; i++)
+    q[i] = 0;
+  __real_explicit_bzero (p, n);
+}
+
 static void
 led_counts (long *heap, long *maps)
 {
